@@ -234,7 +234,7 @@ impl Property for C07 {
             any::<u16>(),
             -2.0f64..2.0,
             -2.0f64..2.0,
-            crate::gen::family_strategy(crate::gen::FamCfg { max_s: 5, min_n: 30, max_n: 120, noise_lo: 1e-6, noise_hi: 1e-3, noiseless_16: 4, start_rel: 0.03, allow_f32: false, weights: true, calibrated_weights: false }),
+            crate::gen::family_strategy(crate::gen::FamCfg { max_s: 5, min_n: 30, max_n: 120, noise_lo: 1e-6, noise_hi: 1e-3, noiseless_16: 4, start_rel: 0.03, allow_f32: false, weights: true, calibrated_weights: false, extra_families: false, wide_weights: false, max_decays: 3 }),
         )
             .prop_map(|(mut base, lm, perm_keys, raws, dupsel, fa, fb, fam)| {
                 base.mrhs = true;
